@@ -118,12 +118,13 @@ def judge(ctx, case):
     if fmt == 'iso0':
         want = ref.iso0_clear(pin, pan)
     else:
-        rnd = getattr(pb, 'random_value', None)
-        if fill is not None and rnd != fill:
-            fail(ctx, case, 'iso4:supplied_fill_not_used', {'supplied': fill, 'used': rnd})
+        # the 64 random bits are read from the block itself (its last eight bytes), not from an attribute of the object
+        if len(clear) != 16:
+            fail(ctx, case, 'iso4:block_is_not_16_bytes', {'got': bytes(clear).hex()})
             return
-        if not isinstance(rnd, int) or not 0 <= rnd < 1 << 64:
-            fail(ctx, case, 'iso4:fill_not_64_bits', {'random_value': repr(rnd)})
+        rnd = int.from_bytes(clear[8:], 'big')
+        if fill is not None and rnd != fill:
+            fail(ctx, case, 'iso4:supplied_fill_not_used', {'supplied': fill, 'in_block': rnd, 'got': bytes(clear).hex()})
             return
         want = ref.iso4_clear(pin, rnd)
         if fill is None:
@@ -182,7 +183,7 @@ def judge_freshness(ctx, case):
         if kind != 'ok':
             fail(ctx, case, 'freshness:construct_failed', {'error': repr(pb)})
             return
-        rv = pb.random_value
+        rv = int.from_bytes(pb.to_bytes()[8:], 'big')
         if rv in seen:
             dup += 1
         seen.add(rv)
@@ -213,7 +214,7 @@ def judge_freshness_fork(ctx, case):
         if pid == 0:
             try:
                 os.close(r)
-                mine = [P.Iso4PinBlock('%04d' % k).random_value for k in range(case['blocks'])]
+                mine = [int.from_bytes(P.Iso4PinBlock('%04d' % k).to_bytes()[8:], 'big') for k in range(case['blocks'])]
                 os.write(w, json.dumps(mine).encode())
             finally:
                 os._exit(0)
